@@ -29,8 +29,6 @@ theorem ole_antisymm {a b : Option Ver} : ole a b → ole b a → a = b := by
   · intro h; exact h.elim
   · intro h1 h2; rw [vlt_total h2 h1]
 
-theorem vjoin_none_left (a : Option Ver) : vjoin none a = a := by cases a <;> rfl
-theorem vjoin_none_right (a : Option Ver) : vjoin a none = a := by cases a <;> rfl
 theorem vjoin_idem (a : Option Ver) : vjoin a a = a := by
   cases a <;> simp [vjoin, vlt_irrefl]
 
@@ -72,106 +70,170 @@ theorem vjoin_assoc (a b c : Option Ver) : vjoin (vjoin a b) c = vjoin a (vjoin 
 
 /-! ### one gossip exchange -/
 
-theorem topVer_some {s : Shard} {k : String} {d : Doc} (h : top s k = some d) : topVer s k = some (ver d) := by
-  simp [topVer, h]
-
-theorem topVer_none {s : Shard} {k : String} (h : top s k = none) : topVer s k = none := by
-  simp [topVer, h]
-
-/-- One gossip exchange about leaf `k`: both sides end at the join of their newest states of `k`; each side's
-    newest document is one of the two newest documents before; other keys are untouched. -/
-theorem gossipLeaf_spec (cl sv : Shard) (k : String) (clk : Nat) :
-    let r := gossipLeaf cl sv k clk
-    topVer r.1 k = vjoin (topVer cl k) (topVer sv k) ∧
-    topVer r.2.1 k = vjoin (topVer cl k) (topVer sv k) ∧
-    (top r.1 k = top cl k ∨ top r.1 k = top sv k) ∧
-    (top r.2.1 k = top cl k ∨ top r.2.1 k = top sv k) ∧
-    (∀ k', k' ≠ k → docsOf r.1 k' = docsOf cl k' ∧ docsOf r.2.1 k' = docsOf sv k') := by
-  cases hc : top cl k with
+/-- the two possible outcomes of a repair, as the exchange protocol sees them. -/
+theorem repair_outcome {s : Shard} (hf : FlagConsistent s) (d : Doc) (t : Nat) :
+    ((repair s d t).2 = (true, none) ∧ ole (ctopVer s d.key) (some (cver d))) ∨
+    (∃ l, repair s d t = (s, false, some l) ∧ l.key = d.key ∧ ctopVer s d.key = some (cver l) ∧
+      ole (some (cver d)) (some (cver l))) := by
+  cases hl : topLast s d.key with
   | none =>
-    cases hs : top sv k with
+    left
+    rw [repair_empty_eq t hl]
+    have hn : top s d.key = none := top_none_iff_topLast_none.2 hl
+    simp [ctopVer, hn, ole]
+  | some l =>
+    by_cases h : Refuses l d
+    · right
+      exact ⟨l, repair_refuse t hl h, (topLast_spec hl).2.1, ctopVer_of_topLast hf hl, cver_ge_of_refuses h⟩
+    · left
+      rw [repair_accept_eq t hl h, ctopVer_of_topLast hf hl]
+      exact ⟨rfl, cver_le_of_not_refuses h⟩
+
+theorem vjoin_absorb_left {a b : Option Ver} (h : ole a b) : vjoin a b = b := by
+  rw [vjoin_comm]; exact vjoin_absorb h
+
+/-- One gossip exchange about leaf `k` between flag-consistent shards: both sides end at the join of their newest
+    `(revision, deleted?)` of `k`; storage stays flag-consistent; other keys are untouched; no content is invented;
+    the clock does not go back. -/
+theorem gossipLeaf_spec {cl sv : Shard} (hc : FlagConsistent cl) (hs : FlagConsistent sv) (k : String) {clk : Nat}
+    (ht : 0 < clk) :
+    let r := gossipLeaf cl sv k clk
+    ctopVer r.1 k = vjoin (ctopVer cl k) (ctopVer sv k) ∧
+    ctopVer r.2.1 k = vjoin (ctopVer cl k) (ctopVer sv k) ∧
+    FlagConsistent r.1 ∧ FlagConsistent r.2.1 ∧
+    (∀ k', k' ≠ k → docsOf r.1 k' = docsOf cl k' ∧ docsOf r.2.1 k' = docsOf sv k') ∧
+    clk ≤ r.2.2.2 ∧
+    (∀ y, y ∈ r.1 ∨ y ∈ r.2.1 → ∃ x, (x ∈ cl ∨ x ∈ sv) ∧ SameContent x y) := by
+  have self_origin : ∀ (a b : Shard) (y : Doc), y ∈ a ∨ y ∈ b → ∃ x, (x ∈ a ∨ x ∈ b) ∧ SameContent x y :=
+    fun a b y hy => ⟨y, hy, rfl, rfl, rfl, rfl⟩
+  cases hcl : top cl k with
+  | none =>
+    cases hsv : top sv k with
     | none =>
-      simp [gossipLeaf, hc, hs, topVer, vjoin]
+      simp only [gossipLeaf, hcl, hsv]
+      refine ⟨by simp [ctopVer, hcl, hsv, vjoin], by simp [ctopVer, hcl, hsv, vjoin], hc, hs, fun _ _ => ⟨by first | rfl | trivial, by first | rfl | trivial⟩,
+        Nat.le_refl _, self_origin cl sv⟩
     | some sd =>
-      have hk : sd.key = k := (top_spec hs).2.1
-      have hc' : top cl sd.key = none := by rw [hk]; exact hc
-      have h1 := repair_empty clk hc'
-      have h2 := repair_topVer cl sd clk
-      rw [hk] at h1 h2
-      simp only [gossipLeaf, hc, hs]
-      refine ⟨?_, ?_, ?_, ?_, ?_⟩
-      · simp [h2, topVer_none hc, topVer_some hs, vjoin]
-      · simp [topVer_none hc, topVer_some hs, vjoin]
-      · right; simp [h1.1]
-      · right; simp [hs]
+      have hk : sd.key = k := (top_spec hsv).2.1
+      have hj := repair_ctopVer hc sd ht
+      rw [hk] at hj
+      simp only [gossipLeaf, hcl, hsv]
+      refine ⟨?_, ?_, hj.2, hs, ?_, Nat.le_succ _, ?_⟩
+      · rw [hj.1]; simp [ctopVer, hcl, hsv, vjoin]
+      · simp [ctopVer, hcl, hsv, vjoin]
       · intro k' hk'
         exact ⟨repair_other cl sd clk (by rw [hk]; exact hk'), by first | rfl | trivial⟩
+      · rintro y (hy | hy)
+        · rcases repair_origin cl sd clk hy with h | ⟨x, hx, h⟩
+          · exact ⟨sd, Or.inr (top_spec hsv).1, h⟩
+          · exact ⟨x, Or.inl hx, h⟩
+        · exact ⟨y, Or.inr hy, rfl, rfl, rfl, rfl⟩
   | some cd =>
-    have hk : cd.key = k := (top_spec hc).2.1
-    simp only [gossipLeaf, hc]
-    by_cases he : (top sv k == some cd) = true
-    · have he' : top sv k = some cd := by simpa using he
-      simp [he, he', hc, topVer, vjoin_idem]
-    · simp only [he]
-      cases hs : top sv k with
-      | none =>
-        have hs' : top sv cd.key = none := by rw [hk]; exact hs
-        have h1 := repair_empty clk hs'
-        have h2 : (repair sv cd clk) = ((repair sv cd clk).1, true, none) := by
-          rw [Prod.ext_iff]; exact ⟨rfl, h1.2⟩
-        rw [hk] at h1
+    have hk : cd.key = k := (top_spec hcl).2.1
+    have hC : ctopVer cl k = some (cver cd) := by simp [ctopVer, hcl]
+    simp only [gossipLeaf, hcl]
+    by_cases he : (topLast sv k == topLast cl k) = true
+    · have he' : topLast sv k = topLast cl k := by simpa using he
+      simp only [he, if_true]
+      obtain ⟨lc, hlc⟩ : ∃ lc, topLast cl k = some lc := by
+        cases h : topLast cl k with
+        | none => exact absurd hk (topLast_none.1 h cd (top_spec hcl).1)
+        | some lc => exact ⟨lc, rfl⟩
+      have e1 := ctopVer_of_topLast hc hlc
+      have e2 := ctopVer_of_topLast hs (he'.trans hlc)
+      refine ⟨by rw [e1, e2, vjoin_idem], by rw [e1, e2, vjoin_idem], hc, hs, fun _ _ => ⟨by first | rfl | trivial, by first | rfl | trivial⟩, Nat.le_refl _,
+        self_origin cl sv⟩
+    · have he0 : (topLast sv k == topLast cl k) = false := by simpa using he
+      simp only [he0, Bool.false_eq_true, if_false]
+      -- first leg: the server repairs with the client's newest document
+      have hj := repair_ctopVer hs cd ht
+      rw [hk] at hj
+      have hcdin := (top_spec hcl).1
+      have hoth1 : ∀ k', k' ≠ k → docsOf (repair sv cd clk).1 k' = docsOf sv k' :=
+        fun k' hk' => repair_other sv cd clk (by rw [hk]; exact hk')
+      have horig1 : ∀ y ∈ (repair sv cd clk).1, ∃ x, (x ∈ cl ∨ x ∈ sv) ∧ SameContent x y := by
+        intro y hy
+        rcases repair_origin sv cd clk hy with h | ⟨x, hx, h⟩
+        · exact ⟨cd, Or.inl hcdin, h⟩
+        · exact ⟨x, Or.inr hx, h⟩
+      rcases repair_outcome hs cd clk with ⟨hacc, hle⟩ | ⟨l, hrep, hlk, hS, hle⟩
+      · -- accepted: nothing comes back
+        have h2 : repair sv cd clk = ((repair sv cd clk).1, true, none) := by
+          rw [Prod.ext_iff]; exact ⟨rfl, hacc⟩
+        rw [hk] at hle
         rw [h2]
-        refine ⟨?_, ?_, ?_, ?_, ?_⟩
-        · simp [topVer_some hc, topVer_none hs, vjoin]
-        · simp [topVer, h1.1, hc, hs, vjoin]
-        · left; simp [hc]
-        · left; simp [h1.1]
-        · intro k' hk'
-          exact ⟨rfl, repair_other sv cd clk (by rw [hk]; exact hk')⟩
-      | some sd =>
-        have hks : sd.key = k := (top_spec hs).2.1
-        have hs' : top sv cd.key = some sd := by rw [hk]; exact hs
-        by_cases hv : vlt (ver sd) (ver cd)
-        · have h1 := repair_accept clk hs' hv
-          have h2 : (repair sv cd clk) = ((repair sv cd clk).1, true, none) := by
-            rw [Prod.ext_iff]; exact ⟨rfl, h1.2⟩
-          rw [hk] at h1
-          rw [h2]
-          refine ⟨?_, ?_, ?_, ?_, ?_⟩
-          · simp [topVer_some hc, topVer_some hs, vjoin, vlt_asymm hv]
-          · simp [topVer, h1.1, hc, hs, vjoin, vlt_asymm hv]
-          · left; simp [hc]
-          · left; simp [h1.1]
-          · intro k' hk'
-            exact ⟨rfl, repair_other sv cd clk (by rw [hk]; exact hk')⟩
-        · rw [repair_refuse clk hs' hv]
-          have hc' : top cl sd.key = some cd := by rw [hks]; exact hc
-          by_cases hw : vlt (ver cd) (ver sd)
-          · have h1 := repair_accept (clk + 1) hc' hw
-            have h2 : (repair cl sd (clk + 1)) = ((repair cl sd (clk + 1)).1, true, none) := by
-              rw [Prod.ext_iff]; exact ⟨rfl, h1.2⟩
-            rw [hks] at h1
-            simp only []
-            rw [h2]
-            refine ⟨?_, ?_, ?_, ?_, ?_⟩
-            · simp [topVer, h1.1, hc, hs, vjoin, hw]
-            · simp [topVer, hc, hs, vjoin, hw]
-            · right; simp [h1.1]
-            · right; simp [hs]
-            · intro k' hk'
-              exact ⟨repair_other cl sd (clk + 1) (by rw [hks]; exact hk'), rfl⟩
-          · simp only []
-            rw [repair_refuse (clk + 1) hc' hw]
-            simp only []
-            rw [repair_refuse (clk + 2) hs' hv]
-            have : ver sd = ver cd := vlt_total hv hw
-            refine ⟨?_, ?_, ?_, ?_, ?_⟩
-            · simp [topVer, hc, hs, vjoin, hw]
-            · simp [topVer, hc, hs, vjoin, hw, this]
-            · left; simp [hc]
-            · right; simp [hs]
-            · intro k' _; exact ⟨rfl, rfl⟩
-
+        simp only []
+        refine ⟨?_, ?_, hc, hj.2, fun k' hk' => ⟨by first | rfl | trivial, hoth1 k' hk'⟩, Nat.le_succ _, ?_⟩
+        · rw [hC]; exact (vjoin_absorb hle).symm
+        · rw [hj.1, ← hC, vjoin_comm]
+        · rintro y (hy | hy)
+          · exact ⟨y, Or.inl hy, rfl, rfl, rfl, rfl⟩
+          · exact horig1 y hy
+      · -- refused: the server answers with its newest document `l`, the client repairs
+        rw [hk] at hlk hS
+        rw [hrep]
+        simp only []
+        have hj2 := repair_ctopVer hc l (Nat.succ_pos clk)
+        rw [hlk] at hj2
+        have hlin : l ∈ sv := by
+          have : (repair sv cd clk).2.2 = some l := by rw [hrep]
+          simp only [repair] at this
+          split at this
+          · simp at this
+          · rename_i l' hl'
+            split at this
+            · simp at this; subst this; exact (topLast_spec hl').1
+            · simp at this
+        have hoth2 : ∀ k', k' ≠ k → docsOf (repair cl l (clk + 1)).1 k' = docsOf cl k' :=
+          fun k' hk' => repair_other cl l (clk + 1) (by rw [hlk]; exact hk')
+        have horig2 : ∀ y ∈ (repair cl l (clk + 1)).1, ∃ x, (x ∈ cl ∨ x ∈ sv) ∧ SameContent x y := by
+          intro y hy
+          rcases repair_origin cl l (clk + 1) hy with h | ⟨x, hx, h⟩
+          · exact ⟨l, Or.inr hlin, h⟩
+          · exact ⟨x, Or.inl hx, h⟩
+        have hSJ : vjoin (ctopVer cl k) (ctopVer sv k) = ctopVer sv k := by
+          rw [hC, hS]; exact vjoin_absorb_left hle
+        rcases repair_outcome hc l (clk + 1) with ⟨hacc', _⟩ | ⟨n', hrep', hnk, hC', hle'⟩
+        · have h3 : repair cl l (clk + 1) = ((repair cl l (clk + 1)).1, true, none) := by
+            rw [Prod.ext_iff]; exact ⟨rfl, hacc'⟩
+          rw [h3]
+          simp only []
+          refine ⟨?_, hSJ.symm, hj2.2, hs, fun k' hk' => ⟨hoth2 k' hk', by first | rfl | trivial⟩, by omega, ?_⟩
+          · rw [hj2.1, hS]
+          · rintro y (hy | hy)
+            · exact horig2 y hy
+            · exact ⟨y, Or.inr hy, rfl, rfl, rfl, rfl⟩
+        · -- the client refuses too and sends its own newest document `n'`: third leg
+          rw [hlk] at hnk hC'
+          rw [hrep']
+          simp only []
+          have hj3 := repair_ctopVer hs n' (Nat.succ_pos (clk + 1))
+          rw [hnk] at hj3
+          have hn'in : n' ∈ cl := by
+            have : (repair cl l (clk + 1)).2.2 = some n' := by rw [hrep']
+            simp only [repair] at this
+            split at this
+            · simp at this
+            · rename_i l' hl'
+              split at this
+              · simp at this; subst this; exact (topLast_spec hl').1
+              · simp at this
+          -- both refuse each other: the two versions are equal
+          have heq : ctopVer cl k = ctopVer sv k := by
+            rw [hC', hS]
+            rw [hC] at hC'
+            have : cver cd = cver n' := by simpa using hC'
+            rw [this] at hle
+            exact ole_antisymm hle hle'
+          refine ⟨?_, ?_, hc, hj3.2, fun k' hk' => ⟨by first | rfl | trivial, repair_other sv n' (clk + 2) (by rw [hnk]; exact hk')⟩,
+            by omega, ?_⟩
+          · rw [heq, vjoin_idem]
+          · rw [hj3.1, ← hC', heq, vjoin_idem]
+          · rintro y (hy | hy)
+            · exact ⟨y, Or.inl hy, rfl, rfl, rfl, rfl⟩
+            · rcases repair_origin sv n' (clk + 2) hy with h | ⟨x, hx, h⟩
+              · exact ⟨n', Or.inl hn'in, h⟩
+              · exact ⟨x, Or.inr hx, h⟩
 
 /-! ### abstract replicas: `Nat → Option Ver` -/
 
